@@ -253,6 +253,11 @@ def gen_cases(run):
     for body, chars in (("a$Nb", [97, 10, 98]), ("$$", [36]), ("a$\"b", [97, 34, 98]), ("$0041", [65])):
         cases.append(Case("string:escape", prog_assign("WSTRING", "\"" + body + "\""), ("const", {"kind": "string", "chars": chars}),
                           note=("dollar-escape", [ord(c) for c in body])))
+    # a '$' code that is cut short by the closing quote, a lone '$': whatever they are taken to be, the parser must answer
+    for body in ("abc$4", "$F", "x$", "$", "$4$", "ab$0"):
+        cases.append(Case("string:escape-cut", prog_assign("STRING", "'" + body + "'"), ("any",)))
+    for body in ("x$00A", "$0", "$", "x$004", "$00"):
+        cases.append(Case("string:escape-cut", prog_assign("WSTRING", "\"" + body + "\""), ("any",)))
     # ---- booleans ---------------------------------------------------------------------------
     for lit, v in (("TRUE", "True"), ("FALSE", "False"), ("true", "True"), ("BOOL#TRUE", "True"), ("BOOL#FALSE", "False")):
         cases.append(Case("bool", prog_init("BOOL", lit), ("const", {"kind": "bool", "value": v})))
@@ -289,6 +294,8 @@ def observed(r):
 def matches(exp, obs):
     if obs[0] == "crash":
         return False
+    if exp[0] == "any":
+        return True
     if exp[0] == "reject-or":
         # a spelling outside IEC 61131-3 that some tools accept: either rejected, or read as the value it plainly denotes
         return obs[0] == "reject" or matches(exp[1], obs)
